@@ -8,6 +8,12 @@ visit_cond_node).  The REAL `short_circuit_struct` restructures a REAL Graph (re
 dominators and RPO); the REAL `Writer.visit_cond_node` / `visit_short_circuit_condition` print the condition.  Leaf
 conditions are stub instructions printing `A` / `!A` and implementing neg().
 
+A second family ('walk') takes EVERY graph of 2, 3 conditions (thorough: 4 over two exits) whose edges may target any
+condition -- loops, self-loops, jumps back to the head -- with the head either the method entry or behind a
+pre-header block, restructures it, prints every remaining condition once and walks the restructured graph from its
+entry under every truth assignment: it must reach the exit the original branches reach (or never leave, if the
+original never leaves; step bound 4k+8).
+
 Oracle: for every ShortCircuitBlock N the printed text is parsed (( ) && || !) and evaluated under each assignment; it
 must select N.true (as left by the writer after any swap) exactly when walking the ORIGINAL chain from N's first
 constituent under that assignment leaves N's constituents towards that node (N.false otherwise).
@@ -19,7 +25,9 @@ from mc.core import Acc, h8
 PROPERTY = "C25"
 LEVEL = "exploration"
 RULE = ("all acyclic connected graphs of 2..3 (thorough 4) two-way conditions over 3 exits x all truth assignments x all "
-        "writer contexts (loop_follow, if-follow, next_case in {None, true target, false target, unrelated}; raw print).  "
+        "writer contexts (loop_follow, if-follow, next_case in {None, true target, false target, unrelated}; raw print); "
+        "plus all (also cyclic) condition graphs of 2..3 (thorough 4) conditions, head = method entry or behind a "
+        "pre-header, walked from the entry under every assignment.  "
         "Non-trivial = a case where short_circuit_struct merged at least two conditions; distinct by construction "
         "(graph x merged node x context), assignments are evaluated inside one case")
 ASSUMPTIONS = ["leaf conditions are stubs whose neg() toggles their truth value (what ConditionalExpression.neg does by "
@@ -49,6 +57,9 @@ def space(ctx):
     return {"conditions": [2, 3] + ([4] if ctx.thorough else []), "exits": EXITS,
             "edge_targets": "any other condition or any exit; graph acyclic, every condition reachable from c0",
             "truth_assignments": "all 2^k",
+            "walk_family": {"conditions": [2, 3] + (["4 (two exits)"] if ctx.thorough else []),
+                            "edge_targets": "any condition (itself included) or any exit; every condition reachable",
+                            "head": ["method entry", "behind a pre-header block"], "step_bound": "4k+8"},
             "writer_contexts": {"loop_follow": ["None", "true", "false", "other"], "if_follow": ["None", "true", "false", "other"],
                                 "next_case": ["None", "true", "false", "other"], "raw": "visit_cond only"}}
 
@@ -100,6 +111,51 @@ def graphs(k, first=None, second_true=None):
             yield [list(p) for p in combo]
 
 
+def walk_targets(k, nexits=3):
+    return list(range(k)) + EXITS[:nexits]
+
+
+def reachable_all(k, edges):
+    seen, todo = {0}, [0]
+    while todo:
+        u = todo.pop()
+        for t in edges[u]:
+            if isinstance(t, int) and t not in seen:
+                seen.add(t)
+                todo.append(t)
+    return len(seen) == k
+
+
+def walk_graphs(k, first=None, second_true=None, nexits=3):
+    """Every graph of k two-way conditions whose edges target ANY condition (itself included) or an exit, all
+    conditions reachable from c0: acyclic chains, loops, self-loops, jumps back to the head."""
+    tg = walk_targets(k, nexits)
+    per = [list(itertools.product(tg, tg)) for _ in range(k)]
+    if first is not None:
+        per[0] = [tuple(first)]
+    if second_true is not None:
+        per[1] = [p for p in per[1] if p[0] == second_true]
+    later = []
+    for combo in itertools.product(*per):
+        if reachable_all(k, combo):
+            g = [list(p) for p in combo]
+            # plain shapes first (no self-loop, two different targets) so that the first witness per key is a natural one
+            if any(p[0] == p[1] or i in p for i, p in enumerate(g)):
+                later.append(g)
+            else:
+                yield g
+    for g in later:
+        yield g
+
+
+def shape_of(k, edges):
+    if valid(k, edges):                      # valid() = all reachable and no cycle (a self-loop is a cycle)
+        return "acyclic"
+    if any(isinstance(t, int) and t == 0 for p in edges for t in p):
+        return "cyclic:back-to-head"
+    return "cyclic:inner"
+
+
 def shards(ctx):
     s = [("k", 2, None, None)]
     for first in itertools.product(targets(3, 0), repeat=2):
@@ -109,6 +165,14 @@ def shards(ctx):
         for first in itertools.product(targets(4, 0), repeat=2):
             for st in targets(4, 1):
                 s.append(("k", 4, list(first), st))
+    # whole-graph walks over ALL condition graphs (cycles, self-loops, jumps back to the head included)
+    s.append(("walk", 2, None, None, 3))
+    for first in itertools.product(walk_targets(3), repeat=2):
+        s.append(("walk", 3, list(first), None, 3))
+    if ctx.thorough:                              # 4 conditions over two exits
+        for first in itertools.product(walk_targets(4, 2), repeat=2):
+            for st in walk_targets(4, 2):
+                s.append(("walk", 4, list(first), st, 2))
     return s
 
 
@@ -134,9 +198,10 @@ class Leaf:
         return None
 
 
-def build(k, edges):
-    """Real Graph of real CondBlocks/ReturnBlocks; returns (graph, conds, exits-by-name)."""
-    from androguard.decompiler.basic_blocks import CondBlock, ReturnBlock
+def build(k, edges, pre=False):
+    """Real Graph of real CondBlocks/ReturnBlocks; returns (graph, conds, exits-by-name).
+    pre=True puts a StatementBlock P in front of c0 (the chain head then is not the method entry)."""
+    from androguard.decompiler.basic_blocks import CondBlock, ReturnBlock, StatementBlock
     from androguard.decompiler.graph import Graph
     g = Graph()
     conds = [CondBlock("c%d" % i, [Leaf(LETTERS[i])]) for i in range(k)]
@@ -154,6 +219,11 @@ def build(k, edges):
         g.add_edge(conds[i], node(t))
         g.add_edge(conds[i], node(f))
     g.entry = conds[0]
+    if pre:
+        p = StatementBlock("P", [])
+        g.add_node(p)
+        g.add_edge(p, conds[0])
+        g.entry = p
     # exits that no edge uses are unreachable: drop them so that the graph is rooted
     used = {t for p in edges for t in p if not isinstance(t, int)}
     for x in EXITS:
@@ -162,9 +232,9 @@ def build(k, edges):
     return g, conds, exits
 
 
-def restructure(k, edges):
+def restructure(k, edges, pre=False):
     from androguard.decompiler.control_flow import short_circuit_struct
-    g, conds, exits = build(k, edges)
+    g, conds, exits = build(k, edges, pre)
     g.compute_rpo()
     idom = g.immediate_dominators()
     node_map = {}
@@ -367,8 +437,94 @@ def judge_graph(k, edges, acc=None):
     return out
 
 
+def original_route(k, edges, val, limit):
+    cur = 0
+    for _ in range(limit):
+        t = edges[cur][0 if val[LETTERS[cur]] else 1]
+        if not isinstance(t, int):
+            return t
+        cur = t
+    return "never leaves the conditions"
+
+
+def judge_walk(k, edges, pre, acc=None):
+    """Whole-graph routing: for every truth assignment the exit reached by walking the restructured graph from its entry
+    (every merged or plain condition printed once by the real writer, text evaluated) must be the exit the original
+    branches reach; a walk that never leaves in the original must not leave in the restructured graph either.
+    Returns (key suffix, message) or None."""
+    from androguard.decompiler.writer import Writer
+    limit = 4 * k + 8
+    variant = "preheader" if pre else "entry-is-head"
+    shp = shape_of(k, edges)
+    try:
+        g, conds, exits, node_map = restructure(k, edges, pre)
+        printed = {}
+        for node in g.nodes:
+            if node.type.is_cond:
+                w = Writer(g, None)
+                node.visit_cond(w)
+                printed[node] = str(w)
+    except Exception as e:      # noqa
+        return ("walk:%s:%s:exception" % (shp, variant),
+                "k=%d edges=%s %s: restructuring/printing raised %s: %s" % (k, edges, variant, type(e).__name__, e))
+    merged = sum(1 for n in printed if getattr(n, "cond", None) is not None)
+    if acc is not None:
+        acc.count("walk_graphs_" + shp.replace(":", "_"))
+        if merged:
+            acc.count("walk_graphs_merged_" + shp.replace(":", "_"))
+            acc.nt_disjoint += 1
+        acc.outcomes.add(h8(tuple(sorted(printed.values()))))
+    bad = []
+    for bits in itertools.product((False, True), repeat=k):
+        val = {LETTERS[i]: bits[i] for i in range(k)}
+        want = original_route(k, edges, val, limit)
+        cur = g.entry
+        got = None
+        steps = 0
+        while got is None:
+            if cur not in g.nodes:
+                got = "node %s which is not in the graph any more" % cur.name
+            elif cur in printed:
+                steps += 1
+                if steps > limit:
+                    got = "never leaves the conditions"
+                else:
+                    cur = cur.true if evaluate(printed[cur], val) else cur.false
+            elif cur.type.is_return:
+                got = cur.name
+            else:
+                nxt = g.sucs(cur)
+                cur = nxt[0] if nxt else None
+                if cur is None:
+                    got = "dead end"
+        if got != want:
+            bad.append("%s: original -> %s, restructured -> %s"
+                       % (" ".join("%s=%d" % (LETTERS[i], bits[i]) for i in range(k)), want, got))
+    if bad:
+        return ("walk:%s:%s" % (shp, variant),
+                "k=%d edges=%s (%s, %s) conditions after restructuring %s: %s"
+                % (k, edges, shp, variant, sorted(printed.values()), "; ".join(bad[:4])))
+    return None
+
+
+def run_walk(ctx, shard, acc):
+    _, k, first, st, nexits = shard
+    for edges in walk_graphs(k, first, st, nexits):
+        for pre in (False, True):
+            res = judge_walk(k, edges, pre, acc)
+            acc.n += 1
+            acc.count("assignments_walked", 1 << k)
+            if res:
+                acc.violation(res[0], {"fam": "walk", "k": k, "edges": edges, "pre": pre}, res[1])
+    if k == 2:
+        acc.sample({"family": "whole-graph walk", "k": 3, "edges": [[1, "X"], [2, "X"], [0, "Y"]], "pre": True})
+    return acc
+
+
 def run_shard(ctx, shard):
     acc = Acc()
+    if shard[0] == "walk":
+        return run_walk(ctx, shard, acc)
     _, k, first, st = shard
     for edges in graphs(k, first, st):
         for key, msg in judge_graph(k, edges, acc):
@@ -381,13 +537,17 @@ def run_shard(ctx, shard):
 
 
 def replay(ctx, w):
+    if w.get("fam") == "walk":
+        res = judge_walk(w["k"], w["edges"], w["pre"])
+        return res[1] if res else None
     out = judge_graph(w["k"], w["edges"])
     return "\n".join(m for _k, m in out[:6]) if out else None
 
 
 def finalize(ctx, acc):
     ex = acc.extra
-    for name in ("chain_graphs_merged", "writer_swapped", "writer_did_not_swap"):
+    for name in ("chain_graphs_merged", "writer_swapped", "writer_did_not_swap", "walk_graphs_acyclic",
+                 "walk_graphs_cyclic_inner", "walk_graphs_cyclic_back-to-head", "walk_graphs_merged_acyclic"):
         if not ex.get(name):
             acc.harness_error("vacuity: counter %s is zero" % name)
     kinds = [p for p in ("pattern_and", "pattern_or", "pattern_not_and", "pattern_not_or") if ex.get(p)]
